@@ -777,7 +777,7 @@ def main(run):
             raise core.HarnessFailure("driver died while validating corpus lines: %s" % r["_crash"]["sig"])
         templates[r["cpu"]] = r["templates"]
     run.cov["instruction_templates"] = {c: len(t) for c, t in templates.items()}
-    nchunks = 240 if quick else 2000
+    nchunks = 600 if quick else 2000
     per = 25
     exe = core.ARTS["san"]["naken_asm"]
     items = []
